@@ -1,8 +1,9 @@
 (* Model of the min/max/mean summaries of scalar features:
      dclab/rtdc_dataset/writer.py:RTDCWriter.write_ndarray (1-d branch: the
-       incremental update of the "min", "max", "mean" attributes; the mean is
-       weighted with the number of non-NaN values, kept per writer instance in
-       _valid_counts and counted from the dataset when unknown),
+       incremental update of the "min", "max", "mean" attributes from the values
+       as stored; the mean is weighted with the number of non-NaN values, kept
+       per writer instance in _valid_counts together with the dataset size
+       and counted from the dataset when unknown or when the size differs),
      dclab/rtdc_dataset/copier.py:rtdc_copy (missing summaries are completed),
      fmt_hdf5/events.py:H5ScalarEvent._fetch_ufunc_attr (stored attributes are
        preferred, otherwise computed),
@@ -70,100 +71,178 @@ Definition mdiv (m : mv) (n : Z) : mv :=
   match m with MFin p q => MFin p (q * n) | o => o end.
 
 (* ---- the dataset and its attributes ----------------------------------------- *)
+(* stored dtype: float64, or an integer type with its range; HDF5 converts
+   what is assigned: truncation towards zero, saturation, NaN -> lowest *)
+Inductive dtk := DF | DI (lo hi : Z).
+Definition clampZ (lo hi v : Z) : Z := Z.max lo (Z.min hi v).
+Definition cast (dt : dtk) (v : fv) : fv :=
+  match dt with
+  | DF => v
+  | DI lo hi =>
+      match v with
+      | Fin k => Fin (8 * clampZ lo hi (Z.quot k 8))
+      | PInf => Fin (8 * hi)
+      | _ => Fin (8 * lo)
+      end
+  end.
+Definition DI64 : dtk := DI (- 2 ^ 63) (2 ^ 63 - 1).
+
 Record sdset := {
-  d_vals : list fv;
+  d_dt : dtk;
+  d_vals : list fv;            (* the values as stored *)
   a_min : option fv;
   a_max : option fv;
   a_mean : option mv
 }.
 
-(* writer instance: mode (0 append, 1 replace, 2 reset) and its
-   _valid_counts entry for this dataset *)
-Record state := { mode : Z; cnt : option Z; ds : option sdset }.
-Definition init : state := {| mode := 0; cnt := None; ds := None |}.
+(* live writer instances: id -> (mode: 0 append, 1 replace, 2 reset; the
+   instance's _valid_counts entry for this dataset: (dataset size, number of
+   non-NaN values) after its last write). Several instances may be open on one
+   h5py.File. *)
+Definition winst := (Z * option (Z * Z))%type.
+Record state := { insts : list (Z * winst); ds : option sdset }.
+Definition init : state := {| insts := []; ds := None |}.
+
+Fixpoint inst_of (i : Z) (l : list (Z * winst)) : winst :=
+  match l with
+  | [] => (0, None)
+  | (j, w) :: r => if i =? j then w else inst_of i r
+  end.
+Definition mode_of (i : Z) (l : list (Z * winst)) : Z := fst (inst_of i l).
+Definition zlen {A} (l : list A) : Z := Z.of_nat (length l).
 
 (* the update of one extremum attribute *)
 Definition upd_ext (op2 : fv -> fv -> fv) (opl : list fv -> fv)
            (old : option fv) (data all : list fv) : fv :=
   match old with
-  | Some a => op2 a (opl data)      (* ufunc([val_a, ufunc(data)]) *)
+  | Some a => op2 a (opl data)      (* ufunc([val_a, ufunc(dset[offset:])]) *)
   | None => opl all                 (* ufunc(dset) *)
   end.
 
-(* write_ndarray, 1-d branch, on an existing (Some) or new (None) dataset;
-   returns the dataset and the new _valid_counts entry *)
-Definition write (c : option Z) (old : option sdset) (data : list fv) : sdset * Z :=
+(* write_ndarray, 1-d branch, on an existing (Some) or new (None) dataset whose
+   dtype would be [dt0], by an instance whose _valid_counts entry is [cache];
+   the summaries are computed from the values as stored; the cached count is
+   reused only if the dataset still has the size the instance left it with.
+   Returns the dataset and the instance's new entry. *)
+Definition write (old : option sdset) (dt0 : dtk) (cache : option (Z * Z)) (data : list fv)
+  : sdset * (Z * Z) :=
   match old with
   | None =>
-      ({| d_vals := data; a_min := Some (nanmin_l data); a_max := Some (nanmax_l data);
-          a_mean := Some (nanmean_l data) |}, 0 + count_valid data)
+      let st := map (cast dt0) data in
+      ({| d_dt := dt0; d_vals := st; a_min := Some (nanmin_l st); a_max := Some (nanmax_l st);
+          a_mean := Some (nanmean_l st) |}, (zlen st, 0 + count_valid st))
   | Some d =>
-      let all := d_vals d ++ data in
-      let mn := upd_ext nanmin2 nanmin_l (a_min d) data all in
-      let mx := upd_ext nanmax2 nanmax_l (a_max d) data all in
+      let st := map (cast (d_dt d)) data in
+      let all := d_vals d ++ st in
+      let mn := upd_ext nanmin2 nanmin_l (a_min d) st all in
+      let mx := upd_ext nanmax2 nanmax_l (a_max d) st all in
       let '(mean, num) :=
         match a_mean d with
         | Some mean_a =>
-            let num_a := match c with Some n => n | None => count_valid (d_vals d) end in
-            let num_b := count_valid data in
+            let num_a := match cache with
+                         | Some (sz, c) => if sz =? zlen (d_vals d) then c
+                                           else count_valid (d_vals d)
+                         | None => count_valid (d_vals d)
+                         end in
+            let num_b := count_valid st in
             (if num_b =? 0 then mean_a
-             else if num_a =? 0 then nanmean_l data
-             else mdiv (madd (mscale mean_a num_a) (mscale (nanmean_l data) num_b))
+             else if num_a =? 0 then nanmean_l st
+             else mdiv (madd (mscale mean_a num_a) (mscale (nanmean_l st) num_b))
                        (num_a + num_b),
              num_a + num_b)
         | None => (nanmean_l all, 0 + count_valid all)
         end in
-      ({| d_vals := all; a_min := Some mn; a_max := Some mx; a_mean := Some mean |}, num)
+      ({| d_dt := d_dt d; d_vals := all; a_min := Some mn; a_max := Some mx;
+          a_mean := Some mean |}, (zlen all, num))
   end.
 
-(* the update as it was before the repair (weights: offset and data.size),
-   kept to document the defect: see Proofs/C20.v:old_mean_refuted *)
+(* the update as it was before the repair 0e55a66 (weights: offset and
+   data.size); documents that defect, tied to nothing: Proofs/C20.v:old_mean_refuted *)
 Definition old_mean_update (mean_a : mv) (old data : list fv) : mv :=
   mdiv (madd (mscale mean_a (Z.of_nat (length old)))
              (mscale (nanmean_l data) (Z.of_nat (length data))))
        (Z.of_nat (length old) + Z.of_nat (length data)).
 
 Inductive op :=
-| OOpen (m : Z)                  (* a new RTDCWriter on the file *)
-| OWrite (data : list fv)        (* store_feature(feat, data), data non-empty *)
+| OOpen (i m : Z)                (* a new RTDCWriter (instance i) on the file, mode m *)
+| OWrite (i : Z) (isint : bool) (data : list fv)
+                                 (* instance i: store_feature(feat, data); isint: integer array *)
 | OCopy                          (* rtdc_copy into a new file (compress, repack, ...) *)
-| ODrop (mn mx me : bool)        (* a file whose dataset lacks some summaries *)
-| ORaw (data : list fv).         (* a new file whose dataset was written without the
-                                    writer (recording software, plain h5py): no summaries;
-                                    the stored dtype (float/int/uint) plays no role below *)
+| ODrop (mn mx me : bool)        (* a file whose dataset lacks some summary attributes *)
+| ORaw (dt : dtk) (data : list fv).
+                                 (* a new file whose dataset was written without the writer
+                                    (recording software, plain h5py): no summaries *)
 
-(* rtdc_copy: attributes are copied, missing ones computed from the data *)
+(* rtdc_copy: attributes are copied, missing summaries computed from the data
+   (nothing is completed for a dataset without events) *)
 Definition copy (d : sdset) : sdset :=
-  {| d_vals := d_vals d;
-     a_min := Some (match a_min d with Some v => v | None => nanmin_l (d_vals d) end);
-     a_max := Some (match a_max d with Some v => v | None => nanmax_l (d_vals d) end);
-     a_mean := Some (match a_mean d with Some v => v | None => nanmean_l (d_vals d) end) |}.
+  match d_vals d with
+  | [] => d
+  | _ =>
+    {| d_dt := d_dt d; d_vals := d_vals d;
+       a_min := Some (match a_min d with Some v => v | None => nanmin_l (d_vals d) end);
+       a_max := Some (match a_max d with Some v => v | None => nanmax_l (d_vals d) end);
+       a_mean := Some (match a_mean d with Some v => v | None => nanmean_l (d_vals d) end) |}
+  end.
 
-Definition step (s : state) (o : op) : state :=
+Fixpoint set_inst (i : Z) (w : winst) (l : list (Z * winst)) : list (Z * winst) :=
+  match l with
+  | [] => [(i, w)]
+  | (j, n) :: r => if i =? j then (i, w) :: r else (j, n) :: set_inst i w r
+  end.
+
+(* [forced]: the dtype store_feature imposes on the feature (FEATURES_UINT32/64).
+   Copies, attribute removal and raw files happen while no writer is open. *)
+Definition step (forced : option dtk) (s : state) (o : op) : state :=
   match o with
-  | OOpen m => {| mode := m; cnt := None; ds := if m =? 2 then None else ds s |}
-  | OWrite data =>
+  | OOpen i m =>
+      if m =? 2 then {| insts := [(i, (m, None))]; ds := None |}
+      else {| insts := set_inst i (m, None) (insts s); ds := ds s |}
+  | OWrite i isint data =>
+      let '(m, cache) := inst_of i (insts s) in
+      let old := if m =? 1 then None else ds s in    (* replace: del events[feat] *)
       match data with
-      | [] => {| mode := mode s; cnt := cnt s;
-                 ds := if mode s =? 1 then None else ds s |}   (* raises after the delete *)
+      | [] => {| insts := insts s; ds := old |}      (* raises after the delete *)
       | _ =>
-          let old := if mode s =? 1 then None else ds s in
-          let '(d, c) := write (cnt s) old data in
-          {| mode := mode s; cnt := Some c; ds := Some d |}
+          let dt0 := match forced with Some t => t | None => if isint then DI64 else DF end in
+          let '(d, e) := write old dt0 cache data in
+          {| insts := set_inst i (m, Some e) (insts s); ds := Some d |}
       end
-  | OCopy => {| mode := mode s; cnt := None; ds := option_map copy (ds s) |}
+  | OCopy => {| insts := []; ds := option_map copy (ds s) |}
   | ODrop mn mx me =>
-      {| mode := mode s; cnt := None;
-         ds := option_map (fun d => {| d_vals := d_vals d;
+      {| insts := [];
+         ds := option_map (fun d => {| d_dt := d_dt d; d_vals := d_vals d;
                                        a_min := if mn then None else a_min d;
                                        a_max := if mx then None else a_max d;
                                        a_mean := if me then None else a_mean d |}) (ds s) |}
-  | ORaw data =>
-      {| mode := mode s; cnt := None;
-         ds := Some {| d_vals := data; a_min := None; a_max := None; a_mean := None |} |}
+  | ORaw dt data =>
+      {| insts := [];
+         ds := Some {| d_dt := dt; d_vals := map (cast dt) data; a_min := None; a_max := None;
+                       a_mean := None |} |}
   end.
 
-Definition run (s : state) (ops : list op) : state := fold_left step ops s.
+Definition run (forced : option dtk) (s : state) (ops : list op) : state :=
+  fold_left (step forced) ops s.
+
+(* the guard of the partial theorem (known finding C20-two-writers-replace-
+   same-size): a writer in replace mode writes only while no live writer that
+   is not in replace mode holds a count for the dataset *)
+Definition replace_ok (s : state) (o : op) : bool :=
+  match o with
+  | OWrite i _ _ =>
+      if mode_of i (insts s) =? 1
+      then forallb (fun e : Z * winst =>
+                      (fst (snd e) =? 1)
+                      || match snd (snd e) with None => true | Some _ => false end)
+                   (insts s)
+      else true
+  | _ => true
+  end.
+Fixpoint hist_ok (forced : option dtk) (s : state) (ops : list op) : bool :=
+  match ops with
+  | [] => true
+  | o :: r => replace_ok s o && hist_ok forced (step forced s o) r
+  end.
 
 (* ---- what the feature object reports (H5ScalarEvent) --------------------------- *)
 Definition rep_min (d : sdset) : fv :=
@@ -231,7 +310,9 @@ Inductive hop :=
 | HFilter (filt : list bool)    (* parent: new filter, apply_filter() *)
 | HRefresh                      (* child.rejuvenate() *)
 | HQuery (which : Z)            (* child[feat].min() / .max() / .mean() *)
-| HRead.                        (* child[feat][:]: the data are loaded and kept *)
+| HRead                         (* child[feat][:]: the data are loaded and kept *)
+| HData (vals : list fv).       (* the parent's feature data change (a temporary feature
+                                   is set again, an ancillary feature is recomputed) *)
 
 Definition new_cobj : cobj := {| o_arr := None; o_min := None; o_max := None; o_mean := None |}.
 
@@ -267,6 +348,7 @@ Definition hstep (s : hstate) (o : hop) : hstate :=
   | HRefresh => {| h_vals := h_vals s; h_filt := h_filt s; h_obj := None; h_changed := false |}
   | HQuery w => {| h_vals := h_vals s; h_filt := h_filt s; h_obj := Some (snd (hquery s w));
                    h_changed := h_changed s |}
+  | HData v => {| h_vals := v; h_filt := h_filt s; h_obj := h_obj s; h_changed := true |}
   | HRead =>
       let o := match h_obj s with Some o => o | None => new_cobj end in
       let arr := match o_arr o with Some a => a | None => select (h_filt s) (h_vals s) end in
@@ -315,15 +397,41 @@ Definition basin_q (bm : list Z) (d : sdset) (which : Z) : qres :=
   else QM (nanmean_l sel).
 
 (* ---- specification --------------------------------------------------------------- *)
-(* the values of the feature after a history *)
-Fixpoint spec_vals (m : Z) (acc : list fv) (ops : list op) : list fv :=
-  match ops with
-  | [] => acc
-  | OOpen m' :: r => spec_vals m' (if m' =? 2 then [] else acc) r
-  | OWrite data :: r => spec_vals m (if m =? 1 then data else acc ++ data) r
-  | ORaw data :: r => spec_vals m data r
-  | _ :: r => spec_vals m acc r
+(* the feature's stored values (and dtype) after a history: what was written
+   since the last replace/reset, converted to the dtype fixed at creation *)
+Fixpoint set_mode (i m : Z) (l : list (Z * Z)) : list (Z * Z) :=
+  match l with
+  | [] => [(i, m)]
+  | (j, n) :: r => if i =? j then (i, m) :: r else (j, n) :: set_mode i m r
   end.
+Fixpoint smode_of (i : Z) (l : list (Z * Z)) : Z :=
+  match l with
+  | [] => 0
+  | (j, m) :: r => if i =? j then m else smode_of i r
+  end.
+
+Definition spec_step (forced : option dtk) (st : list (Z * Z) * option (dtk * list fv)) (o : op)
+  : list (Z * Z) * option (dtk * list fv) :=
+  let '(ins, acc) := st in
+  match o with
+  | OOpen i m => if m =? 2 then ([(i, m)], None) else (set_mode i m ins, acc)
+  | OWrite i isint data =>
+      let old := if smode_of i ins =? 1 then None else acc in
+      match data with
+      | [] => (ins, old)
+      | _ =>
+          match old with
+          | Some (dt, vals) => (set_mode i (smode_of i ins) ins, Some (dt, vals ++ map (cast dt) data))
+          | None =>
+              let dt := match forced with Some t => t | None => if isint then DI64 else DF end in
+              (set_mode i (smode_of i ins) ins, Some (dt, map (cast dt) data))
+          end
+      end
+  | ORaw dt data => ([], Some (dt, map (cast dt) data))
+  | OCopy | ODrop _ _ _ => ([], acc)
+  end.
+Definition spec_vals (forced : option dtk) (ops : list op) : option (dtk * list fv) :=
+  snd (fold_left (spec_step forced) ops ([], None)).
 
 (* equality of means: fractions are compared by cross-multiplication *)
 Definition mv_eq (a b : mv) : Prop :=
@@ -338,12 +446,20 @@ Definition dec (t : Z * Z) : fv :=
   let '(tag, k) := t in
   if tag =? 0 then Fin k else if tag =? 1 then NaN else if tag =? 2 then PInf else NInf.
 
-Definition dec_op (t : Z * Z * list (Z * Z)) : op :=
-  let '(tag, a, data) := t in
-  if tag =? 0 then OOpen a
-  else if tag =? 1 then OWrite (map dec data)
+Definition dt_of (c : Z) : dtk :=
+  if c =? 1 then DI 0 (2 ^ 32 - 1) else if c =? 2 then DI 0 (2 ^ 64 - 1)
+  else if c =? 3 then DI64 else if c =? 4 then DI (- 2 ^ 31) (2 ^ 31 - 1)
+  else if c =? 5 then DI 0 65535 else DF.
+
+(* (tag, a, b, data): 0 open (instance a, mode b); 1 write (instance a, b=1:
+   integer array); 2 copy; 3 drop (a: bits min, max, mean); 4 raw
+   (a: dtype code) *)
+Definition dec_op (t : Z * Z * Z * list (Z * Z)) : op :=
+  let '(tag, a, b, data) := t in
+  if tag =? 0 then OOpen a b
+  else if tag =? 1 then OWrite a (b =? 1) (map dec data)
   else if tag =? 2 then OCopy
-  else if tag =? 4 then ORaw (map dec data)
+  else if tag =? 4 then ORaw (dt_of a) (map dec data)
   else ODrop (Z.odd a) (Z.odd (a / 2)) (Z.odd (a / 4)).
 
 Definition enc_fv (v : fv) : list Z :=
@@ -360,14 +476,30 @@ Definition basin_map_of (n : nat) : list Z :=
 
 (* reported min, max, mean of the final dataset, of a hierarchy child that
    keeps every second event, and of the feature seen through a mapped basin *)
-Definition run_flat (tops : list (Z * Z * list (Z * Z))) : list Z :=
-  match ds (run init (map dec_op tops)) with
+Definition enc_o {A} (enc : A -> list Z) (o : option A) : list Z :=
+  match o with Some a => 1 :: enc a | None => [0] end.
+
+(* case: forced dtype code of the feature (0 none) and the history.
+   result: length, reported min/max/mean, the stored attributes themselves,
+   the summaries of a child keeping every second event and of the feature
+   seen through a mapped basin *)
+Definition run_flat (case : Z * list (Z * Z * Z * list (Z * Z))) : list Z :=
+  let '(fc, tops) := case in
+  let forced := if fc =? 0 then None else Some (dt_of fc) in
+  match ds (run forced init (map dec_op tops)) with
   | None => [-1]
   | Some d =>
       let filt := map (fun i => Nat.even i) (seq 0 (length (d_vals d))) in
       Z.of_nat (length (d_vals d)) :: enc_fv (rep_min d) ++ enc_fv (rep_max d) ++ enc_mv (rep_mean d)
+      ++ enc_o enc_fv (a_min d) ++ enc_o enc_fv (a_max d) ++ enc_o enc_mv (a_mean d)
       ++ enc_fv (child_min filt d) ++ enc_fv (child_max filt d) ++ enc_mv (child_mean filt d)
       ++ flat_map (fun w => enc_q (basin_q (basin_map_of (length (d_vals d))) d w)) [0; 1; 2]
+  end.
+
+Fixpoint dec_flat (p : list Z) : list fv :=
+  match p with
+  | t :: k :: r => dec (t, k) :: dec_flat r
+  | _ => []
   end.
 
 (* child histories: (tag, payload): 0 filter (payload: 0/1 per event),
@@ -375,7 +507,8 @@ Definition run_flat (tops : list (Z * Z * list (Z * Z))) : list Z :=
 Definition dec_hop (t : Z * list Z) : hop :=
   let '(tag, p) := t in
   if tag =? 0 then HFilter (map (fun b => negb (b =? 0)) p)
-  else if tag =? 1 then HRefresh else if tag =? 2 then HQuery (hd 0 p) else HRead.
+  else if tag =? 1 then HRefresh else if tag =? 2 then HQuery (hd 0 p)
+  else if tag =? 3 then HRead else HData (dec_flat p).
 
 Definition child_flat (case : list (Z * Z) * list (Z * list Z)) : list Z :=
   let '(vals, tops) := case in
